@@ -482,24 +482,30 @@ class Session(BaseSession):
         """Intercept SET statements"""
         if isinstance(q.expression, exp.Set):
             expressions = q.expression.expressions
-            for item in expressions:
-                assert isinstance(item, exp.SetItem)
+            # A statement that is refused must not leave some of its assignments behind
+            saved = dict(self.variables.values)
+            try:
+                for item in expressions:
+                    assert isinstance(item, exp.SetItem)
 
-                kind = setitem_kind(item)
+                    kind = setitem_kind(item)
 
-                if kind == "VARIABLE":
-                    self._set_variable(item)
-                elif kind == "CHARACTER SET":
-                    self._set_charset(item)
-                elif kind == "NAMES":
-                    self._set_names(item)
-                elif kind == "TRANSACTION":
-                    self._set_transaction(item)
-                else:
-                    raise MysqlError(
-                        f"Unsupported SET statement: {kind}",
-                        code=ErrorCode.NOT_SUPPORTED_YET,
-                    )
+                    if kind == "VARIABLE":
+                        self._set_variable(item)
+                    elif kind == "CHARACTER SET":
+                        self._set_charset(item)
+                    elif kind == "NAMES":
+                        self._set_names(item)
+                    elif kind == "TRANSACTION":
+                        self._set_transaction(item)
+                    else:
+                        raise MysqlError(
+                            f"Unsupported SET statement: {kind}",
+                            code=ErrorCode.NOT_SUPPORTED_YET,
+                        )
+            except Exception:
+                self.variables.values = saved
+                raise
 
             return [], []
         return await q.next()
